@@ -182,6 +182,52 @@ def _pure_claim(e):
     return True
 
 
+def _stmt_inert(st_, ref_names=(), inert_calls=()):
+    """A statement that cannot influence what the program computes or writes to stdout / files: messages on stderr built from
+    pure values, assertions of pure claims, and tests / loops that guard nothing else; also a call of a new helper function that
+    itself consists of such statements only (`inert_calls`: their names)."""
+    if isinstance(st_, ast.Pass):
+        return True
+    if isinstance(st_, ast.Expr) and isinstance(st_.value, ast.Constant):
+        return True
+    if isinstance(st_, ast.Expr) and isinstance(st_.value, ast.Call):
+        c = st_.value
+        if isinstance(c.func, ast.Name) and c.func.id == 'print' and any(k.arg == 'file' and U(k.value) == 'sys.stderr' for k in c.keywords) \
+                and all(_pure(a.value if isinstance(a, ast.Starred) else a) for a in c.args) and all(_pure(k.value) for k in c.keywords):
+            return True
+        nm = c.func.id if isinstance(c.func, ast.Name) else (c.func.attr if isinstance(c.func, ast.Attribute) and isinstance(c.func.value, ast.Name)
+                                                             and c.func.value.id in ('self', 'cls') else None)
+        if nm in inert_calls and all(_pure(a.value if isinstance(a, ast.Starred) else a) for a in c.args) and all(_pure(k.value) for k in c.keywords):
+            return True
+        return False
+    if isinstance(st_, ast.Assert) and _pure_claim(st_.test) and (st_.msg is None or _pure_claim(st_.msg)):
+        return True         # assertions are the author's claims: assumed to hold (and absent under -O)
+    if isinstance(st_, ast.If) and not st_.orelse and len(st_.body) == 1 and isinstance(st_.body[0], ast.Raise) \
+            and st_.body[0].exc is not None and _pure_claim(st_.test) \
+            and U(st_.body[0].exc.func if isinstance(st_.body[0].exc, ast.Call) else st_.body[0].exc) == 'AssertionError':
+        return True         # the same claim spelled `if not ok: raise AssertionError(..)`
+    if isinstance(st_, ast.For) and not st_.orelse and _pure(st_.iter) and all(_stmt_inert(b, ref_names, inert_calls) for b in st_.body) \
+            and not any(isinstance(x, ast.Name) and x.id in ref_names for x in ast.walk(st_.target)):
+        return True
+    if isinstance(st_, ast.If) and _pure(st_.test) and all(_stmt_inert(b, ref_names, inert_calls) for b in st_.body) \
+            and all(_stmt_inert(b, ref_names, inert_calls) for b in st_.orelse):
+        return True
+    return False
+
+
+def inert_helpers(rel, module):
+    """Names of functions the reference tree does not have whose whole body is inert (a stderr reporting helper)."""
+    ref = refshapes()
+    out = set()
+    for lname, fn in module.funcs.items():
+        if (rel + '::' + lname) in ref or '<locals>' in lname or not isinstance(fn, ast.FunctionDef) or fn.decorator_list:
+            continue
+        body = list(fn.body)
+        if body and all(_stmt_inert(b_) for b_ in body):
+            out.add(lname.rpartition('.')[2])
+    return out
+
+
 def _terminates(body):
     return bool(body) and isinstance(body[-1], (ast.Return, ast.Continue, ast.Break, ast.Raise))
 
@@ -529,24 +575,7 @@ class _Canon(ast.NodeTransformer):
                 self.steps.append(msg)
         # S10 inert statements that the reference does not have
         def _inert(st_):
-            if isinstance(st_, ast.Pass):
-                return True
-            if isinstance(st_, ast.Assert) and _pure_claim(st_.test) and (st_.msg is None or _pure_claim(st_.msg)):
-                return True         # assertions are the author's claims: assumed to hold (and absent under -O)
-            if isinstance(st_, ast.If) and not st_.orelse and len(st_.body) == 1 and isinstance(st_.body[0], ast.Raise) \
-                    and st_.body[0].exc is not None and _pure_claim(st_.test) \
-                    and U(st_.body[0].exc.func if isinstance(st_.body[0].exc, ast.Call) else st_.body[0].exc) == 'AssertionError':
-                return True         # the same claim spelled `if not ok: raise AssertionError(..)`
-            if isinstance(st_, ast.For) and not st_.orelse and _pure(st_.iter) and all(_inert(b) for b in st_.body) \
-                    and not any(isinstance(x, ast.Name) and x.id in self.ref_names for x in ast.walk(st_.target)):
-                return True
-            if isinstance(st_, ast.Expr) and isinstance(st_.value, ast.Call) and isinstance(st_.value.func, ast.Name) \
-                    and st_.value.func.id == 'print' and any(k.arg == 'file' and U(k.value) == 'sys.stderr' for k in st_.value.keywords) \
-                    and all(_pure(a) for a in st_.value.args) and all(_pure(k.value) for k in st_.value.keywords):
-                return True
-            if isinstance(st_, ast.If) and _pure(st_.test) and all(_inert(b) for b in st_.body) and all(_inert(b) for b in st_.orelse):
-                return True
-            return False
+            return _stmt_inert(st_, self.ref_names, getattr(self, 'inert_calls', ()))
         kept = []
         for st in out:
             if isinstance(st, ast.If) and U(st.test) not in self.tests and _inert(st) and U(st) not in self.stmt_set:
@@ -554,6 +583,9 @@ class _Canon(ast.NodeTransformer):
                 self.steps.append('S10 ' + U(st)[:60])
                 continue
             if isinstance(st, (ast.Assert, ast.For)) and _inert(st) and U(st) not in self.stmt_set:
+                self.steps.append('S10 ' + U(st)[:60])
+                continue
+            if isinstance(st, ast.Expr) and isinstance(st.value, ast.Call) and _inert(st) and U(st) not in self.stmt_set:
                 self.steps.append('S10 ' + U(st)[:60])
                 continue
             if U(st) not in self.stmt_set:
@@ -887,7 +919,7 @@ def normalise_function_names(repo):
             gcls, _, gname = g.rpartition('.')
             r = ref[rel + '::' + g]
             rps = list(r.get('params', ()))
-            want_st = set(r.get('stmts', ()))
+            want_st = {t_ for t_ in r.get('stmts', ()) if not t_.lstrip().startswith(("'", '"'))}      # docstrings are not behaviour
             if not want_st:
                 continue
             cands = []
@@ -914,6 +946,22 @@ def normalise_function_names(repo):
                 have_st = {U(x) for x in ast.walk(f2) if isinstance(x, (ast.Assign, ast.AugAssign, ast.Return, ast.Expr)) and not
                            (isinstance(x, ast.Expr) and isinstance(x.value, ast.Constant))}
                 sim = len(have_st & want_st) / max(1, len(have_st | want_st))
+                if sim < 0.5:
+                    # the same statements up to the names of locals (a comprehension variable renamed, ...)
+                    def anon(txt):
+                        try:
+                            t_ = ast.parse(txt)
+                        except SyntaxError:
+                            return txt
+                        for x_ in ast.walk(t_):
+                            if isinstance(x_, ast.Name):
+                                x_.id = '_'
+                            elif isinstance(x_, ast.arg):
+                                x_.arg = '_'
+                        return U(t_)
+                    ha, wa = sorted(anon(t_) for t_ in have_st), sorted(anon(t_) for t_ in want_st)
+                    if ha == wa:
+                        sim = 0.9
                 if sim >= 0.5:
                     cands.append((sim, nw, was_method, pmap))
             if len(cands) == 1:
@@ -1090,12 +1138,14 @@ def canonicalise(rel, module):
     """Canonicalise every function of `module` that has a reference entry; returns {function: [steps]}."""
     ref = refshapes()
     done = {}
+    inert = inert_helpers(rel, module)
     for lname, fn in list(module.funcs.items()):
         r = ref.get(rel + '::' + lname)
         if r is None:
             continue
         c = _Canon(r)
         c.fn = fn
+        c.inert_calls = inert
         got = fold_get_guards(fn, r)
         if got:
             c.steps.extend(got)
